@@ -645,6 +645,10 @@ func segSpread(seed int64, thorough bool, zoneCount int, part int) *segment {
 			}
 		}
 	}
+	// smallest first: the biggest family is the last event of the segment
+	sort.SliceStable(wholeFamilies, func(a, b int) bool {
+		return len(wholeFamilies[a]["fam"].([][]limb)) < len(wholeFamilies[b]["fam"].([][]limb))
+	})
 	for _, e := range wholeFamilies {
 		r.seg.add(e)
 	}
